@@ -2,7 +2,9 @@
 
 Synthesised logs (vf/gen/c19_logs.py: text + the list-of-tables model it was printed from) are given to
 the real ``atomman.lammps.Log`` as text, path or binary stream, alone or as histories of 1-4 ``read``
-calls; what the reader reports is compared with the model (vf/oracle/c19_logmodel.py).
+calls; what the reader reports is compared with the model (vf/oracle/c19_logmodel.py).  The same synthesised
+output is also printed by a stand-in LAMMPS executable (vf/gen/c19_runs.py) so that ``atomman.lammps.run`` - which
+assembles its Log from the rotated logs of all earlier invocations and the current output - is judged the same way.
 """
 from __future__ import annotations
 
@@ -16,6 +18,7 @@ import numpy as np
 
 from ..core import fingerprint
 from ..gen import c19_logs as GEN
+from ..gen import c19_runs as RG
 from ..oracle import c19_logmodel as M
 from .. import monitor, cover
 
@@ -35,7 +38,23 @@ RULE = ('logs are printed by a synthesiser from a list-of-tables model, round-ro
         'the same arguments after every read, spelled positionally / by keyword / with defaults left out; on every other '
         'round one request is repeated (equal table), its table modified in place by the caller (6 kinds) and requested '
         'again; each round ends with a comparison of all records, version and date with copies taken before it. A case is '
-        'non-trivial when at least one thermo row is read; distinct = distinct fingerprint of the log text(s).')
+        'non-trivial when at least one thermo row is read; distinct = distinct fingerprint of the log text(s). '
+        'Boundary forms by index: a log without run block, a single thermo keyword (Step alone / one float keyword), flatten '
+        'indices given as numpy integers. Instances: after every other history a second Log is created (must be empty), reads '
+        'one of the logs (judged on its own) and the first object is compared with a copy taken before. Growing file: one log '
+        'printed up to 6 stages (header only, one row, k rows, loop line, inside the breakdown, complete) into the same path and '
+        'read after every stage (read(append=False) on one object / a new object each time / streams / constructor first), every '
+        'reading judged against the stage, earlier objects re-judged. Entry point run(): a stand-in executable (shell script '
+        'understanding -in/-log/-screen/-suffix) prints staged synthesised output to the log file and to stdout; per case one of '
+        '4 modes: 1-22 successive calls of one simulation with restart script (the k-th result must hold the k-1 rotated logs in '
+        'order + the current output), a directory holding 0-100 rotated logs written in shuffled order + 1-2 calls, two '
+        'simulations interleaved in one directory (or the same logfile name in two directories), calls without restart script '
+        '(each result stands alone although rotated logs lie around; the same output staged twice gives equal records); x '
+        'screen True/default/False x 9 logfile forms (left out, explicit default, other name, hyphen in the stem, two dots, '
+        'pathlib.Path, no extension, subdirectory, absolute; None without restart) x script / script_name x restart_script / '
+        'restart_script_name x mpi_command x suffix x look-alike files x one invocation crashed (LammpsError; its cut log is '
+        'part of every later result) x same / different banners; every result judged block by block and by block identity '
+        '(order of invocations), earlier results compared with copies after each later call, one flatten round on the last result.')
 ASSUMPTIONS = [
     'thermo output is the one-line table style (thermo_style one/custom), keywords are distinct, no WARNING lines '
     'interleaved with the rows, a crashed log ends after a complete row (k >= 0 rows)',
@@ -49,11 +68,16 @@ ASSUMPTIONS = [
     'flatten is a function of what has been read so far: the table it hands out belongs to the caller (modifying it in '
     'place changes neither the records of the log nor a later flatten result), and flatten itself leaves the records alone',
     'the timing-breakdown table is an auxiliary clause (not part of the property statement): numbers per section only',
+    'run(): the LAMMPS executable is a stand-in that prints a staged well-formed log; files whose names match '
+    '<logname>-<anything><ext> but are not rotated logs of the simulation are outside the quantifier (never generated), as '
+    'are deleted rotated logs; where a logfile in a subdirectory keeps its rotated logs is not judged (only the returned Log is)',
+    'a Log without any record has no defined flatten result (not requested)',
 ]
 CONFIG = {'quick': dict(shards=8, seeds=1, timeout=600), 'thorough': dict(shards=16, seeds=3, timeout=3000)}
 
 KINDS = ['text', 'path', 'BytesIO', 'text', 'Path', 'file-rb', 'bytes']
 LOGPY = 'atomman/lammps/Log.py'
+RUNPY = 'atomman/lammps/run.py'
 EXPECT = {'n': None}           # side channel for the Log.read postcondition monitor
 
 
@@ -489,6 +513,10 @@ def flatten_probes(ctx, log, state, idx, where, slice_args=None, repeat=None, **
             rec.count(where + ':slices')
     for p_, (style, a, b, call) in enumerate(probes):
         extra = dict(sliced=(a, b)) if (a, b) != (None, None) else {}
+        if extra and idx % 4 == 3:                     # index arguments taken from an integer array
+            a, b = (None if a is None else np.int64(a)), (None if b is None else np.int64(b))
+            extra['index_type'] = 'numpy.int64'
+            rec.count('flatten:index:numpy-int')
         res = check_flatten(ctx, log, runs, style, a, b, where=where, call=call, **extra, **detail)
         if repeat is not None and repeat[0] == p_:
             check_repeat_and_mutation(ctx, log, runs, style, a, b, res, call, repeat[1], before, **detail)
@@ -498,6 +526,303 @@ def flatten_probes(ctx, log, state, idx, where, slice_args=None, repeat=None, **
               'flatten:side-effect', changed=changed[:4], **detail)
     if changed:
         restore_records(log, before, changed)
+
+
+# ---------------------------------------------------------------------------------------------
+# entry point atomman.lammps.run(): the Log it returns = logs of all earlier invocations, in order, + the current one
+def block_key(columns, first_row, nrows):
+    """Identity of a printed block, coarse enough to survive the reader's rounding (6 digits of the first row)."""
+    try:
+        first = tuple('%.6g' % float(v) for v in first_row)
+    except (TypeError, ValueError):
+        first = ('?',)
+    return (tuple(str(c) for c in columns), int(nrows), first)
+
+
+def record_key(sim):
+    th = getattr(sim, 'thermo', None)
+    if th is None or not hasattr(th, 'columns'):
+        return None
+    try:
+        return block_key(th.columns, th.iloc[0].tolist() if len(th) else (), len(th))
+    except Exception:
+        return None
+
+
+class SimHistory:
+    """One simulation (one logfile name in one directory) driven through run() again and again."""
+
+    def __init__(self, label, cwd, logfile, is_path, restart):
+        self.label, self.cwd, self.logfile, self.is_path, self.restart = label, cwd, logfile, is_path, restart
+        self.state = M.LogState()
+        self.expected = []          # (label, invocation, block) of every block the next result must hold, in order
+        self.ninv = 0               # invocations so far (staged old logs included)
+        self.kept = []              # earlier results: (Log, snapshot, invocation)
+
+    @property
+    def logname(self):
+        return 'log.lammps' if self.logfile is None else self.logfile
+
+    def took_place(self, model):
+        """An invocation printed ``model`` (through run() or in an earlier session)."""
+        self.ninv += 1
+        if not self.restart:
+            self.state = M.LogState()
+            self.expected = []
+        self.state.read(model, append=True)
+        self.expected += [(self.label, self.ninv, b) for b in range(len(model['runs']))]
+
+
+def _invocation_texts(rng, spec, steps, version, trunc='complete'):
+    """Log-file text, screen text and model of one invocation (the same tables printed in both flavours)."""
+    seed = int(rng.integers(0, 2 ** 31))
+    sp = dict(spec, trunc=trunc)
+    t_log, model = GEN.synth(np.random.default_rng(seed), dict(sp, flavour='logfile'), steps=steps, version=version)
+    t_scr, model2 = GEN.synth(np.random.default_rng(seed), dict(sp, flavour='screen', eol='\n'), steps=steps, version=version)
+    assert [r['tokens'] for r in model['runs']] == [r['tokens'] for r in model2['runs']] and model['version'] == model2['version']
+    return t_log, t_scr, model
+
+
+def _runs(ctx, lmp):
+    """Sequences of run() calls with a stand-in executable: see vf/gen/c19_runs.py."""
+    rec = ctx.rec
+    n = ctx.pick(96, 480)
+    home = os.getcwd()
+    base = os.path.join(tempfile.gettempdir(), 'C19')
+    for i in ctx.cases('runs', n):
+        plan = RG.case_plan(i)
+        sb = RG.Sandbox(base)
+        try:
+            _run_case(ctx, lmp, i, plan, sb)
+        finally:
+            os.chdir(home)
+            sb.remove()
+
+
+def _run_case(ctx, lmp, i, plan, sb):
+    rec, rng = ctx.rec, ctx.rng
+    mode, m = plan['mode'], plan['m']
+    restart = mode != 'fresh'
+    screen = plan['screen']
+    lf_label, lf_value, lf_path = plan['logfile']
+    # --- the simulations of this case and the order of their invocations
+    if mode == 'two-sims':
+        a, b = plan['pair']
+        if plan['two_dirs']:
+            sims = [SimHistory('A', sb.work, a, False, True), SimHistory('B', sb.work2, a, False, True)]
+        else:
+            sims = [SimHistory('A', sb.work, a, False, True), SimHistory('B', sb.work, b, False, True)]
+        na, nb = plan['ncalls_a'], plan['ncalls_b']
+        after = [1, max(2, na - 2), na // 2][:nb]
+        order = []
+        for k in range(1, na + 1):
+            order.append(0)
+            order += [1] * after.count(k)
+        lf_label = 'pair'
+    else:
+        value = None if (mode == 'fresh' and plan.get('no_logfile')) else lf_value
+        if value is not None:
+            value = value.replace('<work>', sb.work)
+        sims = [SimHistory('A', sb.work, value, lf_path and value is not None, restart)]
+        order = [0] * plan['ncalls']
+        if mode == 'fresh' and plan.get('no_logfile'):
+            lf_label = 'none'
+    nold = plan.get('nold', 0) + (1 if mode == 'staged' else 0)       # logs found in the directory before the first call
+    ninv_total = len(order) + nold
+    # --- what every invocation prints: blocks cut from one global step plan
+    long = ninv_total > 7
+    nblocks = [(1 + (k % 4 == 3)) if long else 1 + (m + k) % 3 for k in range(ninv_total)]
+    if mode == 'fresh':
+        nblocks[2] = nblocks[0]
+    step_plan = GEN.PLANS[m % len(GEN.PLANS)]
+    total = sum(nblocks)
+    steps = GEN.plan_steps(rng, step_plan, total, middle=(m // 2) % 3 == 1 and total >= 3 and step_plan != 'junction')
+    cuts = np.cumsum([0] + nblocks).tolist()
+    base_spec = GEN.spec_for(7 * m + 3, rng)
+    base_spec['trunc'] = 'complete'
+    if long:
+        base_spec['ncols'] = min(base_spec['ncols'], 5)
+    banner = GEN.banner_text(rng, GEN.BANNERS[m % len(GEN.BANNERS)])
+    crash_truncs = ['rows', 'one-row', 'after-loop', 'header-only', 'mid-breakdown']
+
+    def texts_of(k, trunc='complete'):
+        ver = banner if plan['versions'] == 'same' else GEN.banner_text(rng, GEN.BANNERS[(m + k) % len(GEN.BANNERS)])
+        return _invocation_texts(rng, base_spec, steps[cuts[k]:cuts[k + 1]], ver, trunc)
+
+    sig = ('run', mode, lf_label, 'screen' if screen else 'logfile', plan['restart_form'] if restart else 'no-restart',
+           plan.get('ncalls', plan.get('ncalls_a')), plan.get('nold'), plan['crash_at'] is not None)
+    registry = {}                                       # block identity -> [(label, invocation, block), ...]
+    all_texts = []
+
+    def register(sim, model):
+        for b_, r_ in enumerate(model['runs']):
+            key = block_key(r_['columns'], r_['rows'][0] if r_['rows'] else (), len(r_['rows']))
+            registry.setdefault(key, []).append((sim.label, sim.ninv, b_))
+
+    # --- the directory as earlier sessions left it
+    for s_ in sims:
+        os.makedirs(os.path.join(s_.cwd, os.path.dirname(str(s_.logname))), exist_ok=True)
+    k_inv = 0
+    sim = sims[0]
+    if mode == 'staged':
+        bad_old = (plan['nold'] + 1) // 2 if plan['crashed_old'] else None
+        files = []
+        for k in range(nold):
+            trunc = crash_truncs[(m + k) % len(crash_truncs)] if k == bad_old else 'complete'
+            t_log, _, model = texts_of(k_inv, trunc)
+            k_inv += 1
+            sim.took_place(model)
+            register(sim, model)
+            all_texts.append(t_log)
+            if k < nold - 1:
+                files.append((RG.rotated_name(sim.logname, k + 1), t_log))
+                if os.path.dirname(str(sim.logname)) not in ('', sim.cwd):
+                    # logfile in a subdirectory: whether old logs are kept beside it or in the working directory is
+                    # not the property's business - earlier sessions left them in both places
+                    files.append((os.path.join(os.path.dirname(str(sim.logname)), files[-1][0]), t_log))
+            else:
+                files.append((sim.logname, t_log))
+            if trunc != 'complete':
+                rec.count('run:staged:crashed-old-log')
+        for j in rng.permutation(len(files)):           # directory order is not numeric order
+            with open(os.path.join(sim.cwd, files[int(j)][0]), 'w', newline='') as f:
+                f.write(files[int(j)][1])
+    if plan['clutter'] or mode == 'fresh':
+        for s_ in sims:
+            names = RG.clutter_names(s_.logname)
+            if mode == 'fresh':
+                names = names + [RG.rotated_name(s_.logname, 1), RG.rotated_name(s_.logname, 2)]
+            for name in names:
+                t_log, _, _ = _invocation_texts(rng, base_spec, steps[:1], banner)
+                with open(os.path.join(s_.cwd, name), 'w') as f:
+                    f.write(t_log)
+        rec.count('run:clutter')
+    scripts = {}
+    for name, text in (('in.first', 'units metal\nrun 100\n'), ('in.restart', 'read_restart x.restart\nrun 100\n')):
+        scripts[name] = text
+        for s_ in sims:
+            with open(os.path.join(s_.cwd, name), 'w') as f:
+                f.write(text)
+
+    # --- the calls
+    judged = 0
+    last = None
+    fresh_results = []
+    for c, which in enumerate(order):
+        sim = sims[which]
+        own_call = sum(1 for w in order[:c + 1] if w == which)
+        crash = mode == 'calls' and plan['crash_at'] == own_call
+        trunc = crash_truncs[(m + c) % len(crash_truncs)] if crash else 'complete'
+        if mode == 'fresh' and c == 2:                  # the third stand-alone call prints what the first printed
+            t_log, t_scr, model = fresh_results[0][1]
+        else:
+            t_log, t_scr, model = texts_of(k_inv, trunc)
+        k_inv += 1
+        sb.stage(t_log, t_scr, fail=crash)
+        kwargs = dict(screen=screen)
+        if sim.logfile is not None or (mode == 'fresh' and plan.get('no_logfile')):
+            kwargs['logfile'] = pathlib.Path(sim.logfile) if sim.is_path else sim.logfile
+        if plan['script_form'] == 'script':
+            kwargs['script'] = scripts['in.first']
+        else:
+            kwargs['script_name'] = 'in.first'
+        if restart:
+            if plan['restart_form'] == 'restart_script':
+                kwargs['restart_script'] = scripts['in.restart']
+            else:
+                kwargs['restart_script_name'] = 'in.restart'
+        if plan['mpi']:
+            kwargs['mpi_command'] = sb.mpi + ' -n 4'
+        if plan['suffix']:
+            kwargs['suffix'] = 'omp'
+        if screen is True and c % 2 == 0:
+            del kwargs['screen']                        # the default
+        os.chdir(sim.cwd)
+        n_old_read = (sim.ninv if restart else 0)
+        sim.took_place(model)
+        register(sim, model)
+        all_texts.append(t_log)
+        detail = dict(mode=mode, call_no=own_call, old_logs=n_old_read, screen=screen, logfile=str(sim.logname), simulation=sim.label,
+                      restart=plan['restart_form'] if restart else None, crashed_earlier=plan['crash_at'], step_plan=step_plan)
+        log = None
+        rec.count('run:calls')
+        g = ctx.guard('run() returns the Log of the earlier invocations and the current one', 'run:exception',
+                      accept=(lmp.LammpsError,) if crash else ())
+        with g:
+            log = lmp.run(sb.exe, **kwargs)
+        argv, script = sb.received()
+        if argv is None:
+            rec.count('run:standin-not-invoked')
+        if crash:
+            rec.count('run:crashed-invocation')
+            rec.check(g.exc is not None, 'a LAMMPS process that exits with an error raises LammpsError', 'run:crash-not-raised', **detail)
+            continue
+        if log is None:
+            continue
+        # ---- the result against everything this simulation has printed so far
+        judged += 1
+        rec.count('run:results-judged')
+        rec.count('run:results-judged:' + ('screen' if screen else 'logfile'))
+        for lim in (1, 10, 20, 100):
+            if n_old_read >= lim:
+                rec.count('run:old-logs>=%d' % lim)
+                rec.count('run:old-logs>=%d:%s' % (lim, 'screen' if screen else 'logfile'))
+        if n_old_read >= 10:
+            rec.count('run:old-logs>=10:' + mode)
+        if plan['crash_at'] is not None and own_call > plan['crash_at']:
+            rec.count('run:after-crash-judged')
+        check_log(rec, log, sim.state, 'run', **detail)
+        cands = [registry.get(record_key(s_)) for s_ in log.simulations]
+        if any(x is None for x in cands):
+            rec.count('run:order:unidentified-block')
+        else:
+            # a block printed twice (same output staged again) is identified as the expected one where that is possible
+            ids = [(sim.expected[j_] if j_ < len(sim.expected) and sim.expected[j_] in x else x[0]) for j_, x in enumerate(cands)]
+            foreign = any(x[0] != sim.label for x in ids)
+            rec.count('run:order-judged')
+            rec.check(ids == sim.expected, 'run() lists the records invocation by invocation in the order they were produced, '
+                      'the current output last', 'run:order' + (':other-simulation' if foreign else ''),
+                      observed=[x[1] for x in ids][:30], expected=[x[1] for x in sim.expected][:30],
+                      sims=sorted({x[0] for x in ids}), **detail)
+        # ---- results handed out earlier are the caller's: later calls leave them alone
+        for old_log, snap, inv in sim.kept[-3:] + [k_ for s_ in sims if s_ is not sim for k_ in s_.kept[-1:]]:
+            rec.count('run:earlier-results-rejudged')
+            changed = records_changed(old_log, snap)
+            rec.check(not changed, 'a Log returned by an earlier run() call is not altered by later calls', 'run:earlier-result',
+                      changed=changed[:4], result_of_invocation=inv, **detail)
+        sim.kept.append((log, snapshot(log), sim.ninv))
+        if mode == 'fresh':
+            fresh_results.append((log, (t_log, t_scr, model)))
+            if c == 2:
+                first = fresh_results[0][0]
+                rec.count('run:same-output-twice')
+                same = len(first.simulations) == len(log.simulations) and all(
+                    same_table(x.thermo, y.thermo) for x, y in zip(first.simulations, log.simulations))
+                rec.check(same, 'the same LAMMPS output gives the same records whatever ran in between', 'run:repeat', **detail)
+        last = (log, sim, detail)
+
+    rec.case(sig, nontrivial=judged > 0, fp=fingerprint(all_texts))
+    for name in ('mode:' + mode, 'logfile:' + lf_label, 'screen:%s' % screen, 'script:' + plan['script_form']):
+        rec.count('run:' + name)
+    if restart:
+        rec.count('run:restart:' + plan['restart_form'])
+    for flag in ('mpi', 'suffix'):
+        if plan[flag]:
+            rec.count('run:' + flag)
+    if plan['versions'] == 'different':
+        rec.count('run:different-versions')
+    if mode == 'two-sims':
+        rec.count('run:two-sims:' + ('two-directories' if plan['two_dirs'] else 'one-directory'))
+    if i < 16:
+        rec.sample(dict(entry='run', plan={k_: (str(v_) if not isinstance(v_, (int, bool, type(None), str)) else v_)
+                                           for k_, v_ in plan.items()}, invocations=ninv_total, blocks=total))
+    # ---- the merged table of what run() returned
+    if last is not None:
+        log, sim, detail = last
+        rp = ((i // 2) % 3, MUTATIONS[i % len(MUTATIONS)]) if i % 2 == 0 else None
+        rec.count('run:flatten-rounds')
+        flatten_probes(ctx, log, sim.state, i, 'flatten', slice_args=(STYLES[i % 3],) + SLICE_ARGS[(i // 3) % len(SLICE_ARGS)],
+                       repeat=rp, entry='run', **{k_: detail[k_] for k_ in ('mode', 'old_logs', 'screen')})
 
 
 # ---------------------------------------------------------------------------------------------
@@ -536,11 +861,13 @@ def run(ctx):
     import atomman.lammps as lmp
     rec = ctx.rec
     install_monitors(rec, lmp)
-    cover.start([LOGPY])
+    cover.start([LOGPY, RUNPY])
     feeder = Feeder()
     try:
         _logs(ctx, lmp, feeder)
         _histories(ctx, lmp, feeder)
+        _growing(ctx, lmp, feeder)
+        _runs(ctx, lmp)
     finally:
         feeder.remove()
         EXPECT['n'] = None
@@ -551,6 +878,7 @@ def run(ctx):
     # reach of the anchored code (line numbers of atomman/lammps/Log.py in the tree under test are found by content)
     for name, n in _reach(lmp).items():
         rec.count('reach:' + name, n)
+    rec.count('reach:run-old-logs', _reach_run(lmp))
     _floors(ctx)
 
 
@@ -588,6 +916,20 @@ def _reach(lmp):
     return out
 
 
+def _reach_run(lmp):
+    """Executed lines of run() between the comments that frame the reading of the earlier logs."""
+    import inspect
+    try:
+        src, first = inspect.getsourcelines(lmp.run)
+    except (OSError, TypeError):
+        return 0
+    la = next((first + j for j, l_ in enumerate(src) if 'Read in all old runs' in l_), None)
+    lb = next((first + j for j, l_ in enumerate(src) if 'Read in current run' in l_), None)
+    if la is None or lb is None:
+        return cover.hits(RUNPY, first, first + len(src))
+    return cover.hits(RUNPY, la, lb)
+
+
 def _logs(ctx, lmp, feeder):
     rec = ctx.rec
     n = ctx.pick(960, 6000)
@@ -596,7 +938,17 @@ def _logs(ctx, lmp, feeder):
         spec = GEN.spec_for(i, rng, big=True)
         if i % 41 == 40:
             spec['banner'] = 'none'                   # file opened by the 'log' command: no banner
-        text, model = GEN.synth(rng, spec)
+        steps0 = None
+        if i % 53 == 52:                               # a script without run/minimize command (or stopped before the first)
+            steps0 = []
+            rec.count('class:no-run-block')
+        if i % 47 == 46:                               # thermo_style custom with a single keyword
+            spec['ncols'] = 1
+            spec['step_pos'] = ['first', 'absent'][(i // 47) % 2]
+            spec['colchange'] = False
+            rec.count('class:one-keyword')
+            rec.count('class:one-keyword:' + ('step' if spec['step_pos'] == 'first' else 'float'))
+        text, model = GEN.synth(rng, spec, steps=steps0)
         kind = KINDS[i % len(KINDS)]
         form = 'ctor' if (i // 2) % 2 == 0 and spec['breakdown'] != 'none' else 'read'
         nrows = sum(len(r['rows']) for r in model['runs'])
@@ -779,6 +1131,118 @@ def _histories(ctx, lmp, feeder):
             continue
         rec.count('histories-completed')
         rec.count('history:flatten-' + ('at-end-only' if end_only else 'after-every-read'))
+        if i % 2 == 0:
+            _second_instance(ctx, lmp, feeder, log, ops[(i // 2) % nlogs], i)
+
+
+def _second_instance(ctx, lmp, feeder, first, o, i):
+    """State must not leak between Log objects: a Log created after ``first`` was filled is empty, reads its own log,
+    and ``first`` still reports what it reported."""
+    rec = ctx.rec
+    snap = snapshot(first)
+    n_first = len(first.simulations)
+    detail = dict(first_holds=n_first, input=o['kind'])
+    second = None
+    with ctx.guard('a Log can be created while another one exists', 'instances:exception'):
+        second = lmp.Log()
+    if second is None:
+        return
+    rec.count('instances:second-created')
+    rec.check(len(second.simulations) == 0 and second.lammps_version is None and second.lammps_date is None,
+              'a newly created Log is empty whatever other Log objects hold', 'instances:new-not-empty',
+              got=len(second.simulations), version=second.lammps_version, **detail)
+    form = i % 4 == 0
+    EXPECT['n'] = None
+    g = ctx.guard('a well-formed log is read without error', read_exception_key([o['spec']]))
+    with g:
+        if form:
+            second = lmp.Log(feeder.give(o['text'], o['kind']))
+        else:
+            second.read(feeder.give(o['text'], o['kind']))
+    feeder.tidy()
+    if g.exc is None:
+        st = M.LogState()
+        st.read(o['model'], append=True)
+        rec.count('instances:second-judged')
+        check_log(rec, second, st, 'instances:second', **detail)
+    changed = records_changed(first, snap)
+    rec.count('instances:first-rejudged')
+    rec.check(not changed, 'reading a log into one Log object leaves every other Log object as it was', 'instances:first-changed',
+              changed=changed[:4], **detail)
+
+
+GROW = ['header-only', 'one-row', 'rows', 'after-loop', 'mid-breakdown', 'complete']
+
+
+def _growing(ctx, lmp, feeder):
+    """The log of a running simulation read again and again while it grows (same path / a new stream each time):
+    every reading is judged against what the file held at that moment, earlier objects keep what they read."""
+    rec = ctx.rec
+    n = ctx.pick(72, 360)
+    os.makedirs(feeder.dir, exist_ok=True)
+    for i in ctx.cases('growing', n):
+        rng = ctx.rng
+        spec = GEN.spec_for(11 * i + 5, rng)
+        seed = int(rng.integers(0, 2 ** 31))
+        stages = []
+        for tr in GROW:
+            t, mdl = GEN.synth(np.random.default_rng(seed), dict(spec, trunc=tr))
+            if stages and t == stages[-1][1]:
+                continue
+            stages.append((tr, t, mdl))
+        if all(b_[1].startswith(a_[1].rstrip('\r\n')) for a_, b_ in zip(stages[:-1], stages[1:])):
+            rec.count('growing:every-stage-extends-the-previous')
+        form = ['poll-replace', 'new-object', 'poll-replace-stream', 'ctor-then-replace'][i % 4]
+        kind = ['path', 'Path', 'file-rb'][(i // 4) % 3] if form != 'poll-replace-stream' else ['BytesIO', 'bytes', 'text'][(i // 4) % 3]
+        rec.case(('growing', form, kind, spec['breakdown'], spec['mem']), nontrivial=True, fp=fingerprint(stages[-1][1]))
+        rec.count('growing:form:' + form)
+        path = os.path.join(feeder.dir, 'running-%d.lammps' % (i % 3))
+        log = None
+        earlier = []
+        for j, (tr, text, mdl) in enumerate(stages):
+            os.makedirs(feeder.dir, exist_ok=True)
+            with open(path, 'wb') as f:
+                f.write(text.encode('utf-8'))
+            if kind == 'path':
+                arg = path
+            elif kind == 'Path':
+                arg = pathlib.Path(path)
+            elif kind == 'file-rb':
+                arg = open(path, 'rb')
+                feeder.open.append(arg)
+            else:
+                arg = feeder.give(text, kind)
+            st = M.LogState()
+            st.read(mdl, append=True)
+            detail = dict(form=form, input=kind, stage=tr, reading=j, spec={k: spec[k] for k in ('mem', 'breakdown', 'fmt', 'flavour', 'banner')})
+            EXPECT['n'] = len(mdl['runs'])
+            g = ctx.guard('a well-formed log is read without error', read_exception_key([spec]))
+            with g:
+                if form == 'new-object' or log is None:
+                    if form == 'ctor-then-replace' or (form == 'new-object' and j % 2 == 0):
+                        log = lmp.Log(arg)
+                    else:
+                        log = lmp.Log()
+                        log.read(arg, append=False)
+                else:
+                    log.read(arg, append=False)
+            EXPECT['n'] = None
+            feeder.tidy()
+            if g.exc is not None or log is None:
+                break
+            rec.count('growing:readings')
+            rec.count('growing:stage:' + tr)
+            check_log(rec, log, st, 'growing', **detail)
+            for old_log, snap, k_ in earlier[-3:]:
+                rec.count('growing:earlier-objects-rejudged')
+                changed = records_changed(old_log, snap)
+                rec.check(not changed, 'a Log that read the file earlier keeps what it read then', 'growing:earlier-object-changed',
+                          changed=changed[:4], read_at=k_, **detail)
+            if form == 'new-object':
+                earlier.append((log, snapshot(log), j))
+            if j == len(stages) - 1 or (i + j) % 3 == 0:
+                flatten_probes(ctx, log, st, i + j, 'flatten' if form == 'new-object' or j == 0 else 'flatten:interleaved',
+                               growing=True, **{k_: detail[k_] for k_ in ('form', 'stage', 'reading')})
 
 
 def _floors(ctx):
@@ -868,5 +1332,58 @@ def _floors(ctx):
     f('clause:monitor: read(append=True) adds the new runs after the existing ones, append=False replaces them', 500)
     for name in ('scan', 'thermo', 'version', 'perf-new', 'perf-old', 'flatten'):
         f('reach:' + name, 3)
+    # boundary forms, instances, the same file read again after it has grown
+    f('class:no-run-block', 10)
+    f('class:one-keyword:step', 4)
+    f('class:one-keyword:float', 4)
+    f('flatten:index:numpy-int', 60)
+    f('instances:second-created', 100)
+    f('instances:second-judged', 100)
+    f('instances:first-rejudged', 100)
+    f('growing:readings', 250)
+    f('growing:every-stage-extends-the-previous', 40)
+    for c in ('poll-replace', 'new-object', 'poll-replace-stream', 'ctor-then-replace'):
+        f('growing:form:' + c, 12)
+    for c in GROW:
+        f('growing:stage:' + c, 30)
+    f('growing:earlier-objects-rejudged', 100)
+    # entry point run(): Log of all earlier invocations + the current one
+    f('run:calls', 400)
+    f('run:results-judged', 350)
+    f('run:results-judged:screen', 120)
+    f('run:results-judged:logfile', 120)
+    f('run:order-judged', 300)
+    f('run:old-logs>=1', 250)
+    f('run:old-logs>=10', 60)
+    f('run:old-logs>=10:screen', 20)
+    f('run:old-logs>=10:logfile', 20)
+    f('run:old-logs>=10:calls', 30)
+    f('run:old-logs>=10:staged', 15)
+    f('run:old-logs>=10:two-sims', 6)
+    f('run:old-logs>=20', 12)
+    f('run:old-logs>=100', 2)
+    for c, k in (('calls', 40), ('staged', 20), ('two-sims', 10), ('fresh', 10)):
+        f('run:mode:' + c, k)
+    for lab, _, _ in RG.LOGFILES:
+        f('run:logfile:' + lab, 5)
+    f('run:logfile:pair', 10)
+    f('run:logfile:none', 2)
+    f('run:restart:restart_script', 30)
+    f('run:restart:restart_script_name', 30)
+    f('run:script:script', 30)
+    f('run:script:script_name', 30)
+    f('run:mpi', 12)
+    f('run:suffix', 15)
+    f('run:clutter', 30)
+    f('run:different-versions', 15)
+    f('run:crashed-invocation', 10)
+    f('run:after-crash-judged', 30)
+    f('run:staged:crashed-old-log', 4)
+    f('run:two-sims:one-directory', 6)
+    f('run:two-sims:two-directories', 3)
+    f('run:earlier-results-rejudged', 600)
+    f('run:same-output-twice', 10)
+    f('run:flatten-rounds', 80)
+    f('reach:run-old-logs', 1)
     for style in ('first', 'last', 'all'):
         f('reach:flatten-' + style, 1)
